@@ -316,9 +316,11 @@ func (bf *buffer) ReadPeek(n int) ([]byte, error) {
 	cpos := bf.cseq.get()
 	ppos := bf.pseq.get()
 
-	// If there's no data, then let's wait until there is some data
+	// If there's no data, then let's wait until there is some data. The producer
+	// cursor must be (re-)read under the lock before waiting: a commit signalled
+	// between an earlier read and Lock would otherwise be missed.
 	bf.ccond.L.Lock()
-	for ; cpos >= ppos; ppos = bf.pseq.get() {
+	for ppos = bf.pseq.get(); cpos >= ppos; ppos = bf.pseq.get() {
 		if bf.isDone() {
 			return nil, io.EOF
 		}
